@@ -765,6 +765,221 @@ fn real_startup_case(
     None
 }
 
+//============ Part E =========================================================
+
+/// A committed change whose follow-up has the SAME queue name as a task that
+/// is being executed at that moment. In the daemon the scheduler thread is
+/// between claiming a task and completing it (finish / follow-up /
+/// reschedule) while a request served by a worker thread commits: a
+/// publication by a remote publisher while `update_rrdp_if_needed` runs, a
+/// CA command while that CA's repository synchronisation runs, a request
+/// created (or the parent changing the child's entitlement) while the
+/// child's parent synchronisation runs. The follow-up must not be lost to
+/// "there is already such a task": the queue alone has to make the change
+/// visible. `before` puts the commit before the task's work (it may then be
+/// picked up by the running task), otherwise between its work and its
+/// completion.
+fn overlap_case(
+    r: &mut Report, args: &Args, variant: &str, before: bool,
+) -> Option<(String, String, Value)> {
+    let dir = args.work.join(format!("overlap_{variant}_{before}"));
+    let _ = std::fs::remove_dir_all(&dir);
+    let mut w = World::create(WorldCfg::new(&dir));
+    for op in [
+        Op::AddCa { ca: "a".into(), parent: "ta".into(),
+            asn: "AS65000-AS65005".into(), v4: "10.0.0.0/16".into(),
+            v6: "".into() },
+        Op::Quiesce,
+        Op::AddCa { ca: "b".into(), parent: "a".into(), asn: "AS65001".into(),
+            v4: "10.0.0.0/24".into(), v6: "".into() },
+        Op::Quiesce,
+        Op::RoaDelta { ca: "b".into(), add: vec!["10.0.0.0/24 => 65001".into()],
+            remove: vec![] },
+        Op::RawPublisher { publisher: "rp".into() },
+        Op::RawPublish { publisher: "rp".into(), name: "x.bin".into(), fill: 1 },
+        Op::Quiesce,
+    ] {
+        let out = hist::apply(&mut w, &op);
+        if !out.is_ok() {
+            r.inconclusive(format!("overlap case setup: {out:?}"));
+            return None
+        }
+    }
+    let wit = json!({"part": "E", "variant": variant, "commit_before_work": before});
+    // the change that makes the victim task pending, the victim's name, and
+    // the overlapping commit
+    let (prime, victim, commit): (Vec<Op>, &str, Vec<Op>) = match variant {
+        "rrdp" => (
+            vec![Op::RawPublish { publisher: "rp".into(), name: "y.bin".into(), fill: 2 }],
+            "update_rrdp_if_needed",
+            vec![Op::RawPublish { publisher: "rp".into(), name: "z.bin".into(), fill: 3 }],
+        ),
+        "rrdp-withdraw" => (
+            vec![Op::RawPublish { publisher: "rp".into(), name: "y.bin".into(), fill: 2 }],
+            "update_rrdp_if_needed",
+            vec![Op::RawWithdraw { publisher: "rp".into(), name: "x.bin".into() }],
+        ),
+        "repo" => (
+            vec![Op::RoaDelta { ca: "b".into(),
+                add: vec!["10.0.0.0/24-25 => 65001".into()], remove: vec![] }],
+            "sync_repo_b",
+            vec![Op::RoaDelta { ca: "b".into(),
+                add: vec!["10.0.0.0/24-26 => 65001".into()], remove: vec![] }],
+        ),
+        "parent-entitlement" => (
+            vec![Op::SyncParent { ca: "b".into() }],
+            "sync_b_with_parent_a",
+            vec![Op::ChildUpdate { parent: "a".into(), child: "b".into(),
+                asn: "AS65001".into(), v4: "10.0.0.0/24, 10.0.2.0/24".into(),
+                v6: "".into() }],
+        ),
+        "parent-request" => (
+            vec![Op::SyncParent { ca: "b".into() }],
+            "sync_b_with_parent_a",
+            vec![Op::RollInit { ca: "b".into() }],
+        ),
+        _ => unreachable!(),
+    };
+    for op in &prime {
+        let out = hist::apply(&mut w, op);
+        if !out.is_ok() {
+            r.inconclusive(format!("overlap {variant}: priming {out:?}"));
+            return None
+        }
+    }
+    // run whatever is due before the victim (e.g. the repository
+    // synchronisation that precedes an RRDP update) without running it
+    let mut guard = 0;
+    let key = loop {
+        guard += 1;
+        if guard > 60 {
+            r.inconclusive(format!("overlap {variant}: {victim} never pending"));
+            return None
+        }
+        let pend = w.pending();
+        let now = w.queue_now_ms();
+        let others_due: Vec<String> = pend.iter()
+            .filter(|p| p.0 <= now && p.1 != victim)
+            .map(|p| p.2.clone()).collect();
+        if let Some(k) = others_due.first() {
+            let _ = w.step_directed(k);
+            continue
+        }
+        match pend.iter().find(|p| p.1 == victim) {
+            Some(p) if p.0 <= now => break p.2.clone(),
+            Some(_) | None => { w.advance_ms(1000); }
+        }
+    };
+    let Some((rkey, value)) = w.claim_directed(&key) else {
+        r.inconclusive(format!("overlap {variant}: cannot claim {victim}"));
+        return None
+    };
+    r.eval();
+    r.nontrivial(format!("overlap|{variant}|{}", if before { "before-work" } else { "before-completion" }));
+    let mut commit_out = vec![];
+    let run = if before {
+        for op in &commit { commit_out.push(hist::apply(&mut w, op)); }
+        w.process_claimed(rkey, value)
+    } else {
+        let outs = std::cell::RefCell::new(vec![]);
+        let run = w.process_claimed_with(rkey, value, |w| {
+            for op in &commit { outs.borrow_mut().push(hist::apply(w, op)); }
+        });
+        commit_out = outs.into_inner();
+        run
+    };
+    if let Some(o) = commit_out.iter().find(|o| !o.is_ok()) {
+        r.inconclusive(format!("overlap {variant}: overlapping commit {o:?}"));
+        return None
+    }
+    if let Some(f) = run.fatal() {
+        return Some((
+            format!("overlap:daemon-would-exit:{variant}"),
+            format!("{} was being executed while {:?} was committed by \
+                     another request; completing the task: {f}", run.name(), commit),
+            wit,
+        ))
+    }
+    // the queue alone
+    let (runs, ok) = w.quiesce();
+    for run in &runs {
+        if let Some(f) = run.fatal() {
+            return Some((
+                format!("overlap:daemon-would-exit-later:{variant}"),
+                format!("{}: {f}", run.name()), wit))
+        }
+    }
+    if !ok {
+        r.inconclusive(format!("overlap {variant}: queue not idle"));
+        return None
+    }
+    r.eval();
+    r.count("overlap_cases", 1);
+    let bad = |what: String| Some((
+        format!("overlap:follow-up-lost:{variant}"),
+        format!("{victim} was being executed ({}) while {:?} was committed; \
+                 the queue became idle but {what}",
+                if before { "commit before its work" } else { "commit between its work and its completion" },
+                commit),
+        wit.clone(),
+    ));
+    // RRDP and rsync carry what the server holds
+    let files = w.publisher_files();
+    match rrdpview::read_rrdp(&w.repo_dir()) {
+        Err(e) => return bad(format!("RRDP unreadable: {e}")),
+        Ok(st) => {
+            let snap: BTreeMap<String, u64> = st.snapshot.iter()
+                .map(|(u, b)| (u.clone(), kvh::util::fnv(b))).collect();
+            let held: BTreeMap<String, u64> = files.iter()
+                .map(|(u, b)| (u.clone(), kvh::util::fnv(b))).collect();
+            if snap != held {
+                let diff: Vec<&String> = held.keys()
+                    .filter(|u| snap.get(*u) != held.get(*u))
+                    .chain(snap.keys().filter(|u| !held.contains_key(*u)))
+                    .take(4).collect();
+                return bad(format!("the RRDP snapshot (serial {}) differs from \
+                                    the server content: {diff:?}", st.serial))
+            }
+        }
+    }
+    if oracle::has_open_requests(&w) {
+        return bad("a CA still has an open request".into())
+    }
+    // configured ROA objects are in the repository, and validate
+    if let Ok(c) = w.krill.ca_manager().get_ca(&h("b")) {
+        for conf in c.configured_roas() {
+            for obj in &conf.roa_objects {
+                let uri = obj.uri.to_string();
+                if !files.get(&uri).map(|b| obj.hash.matches(b)).unwrap_or(false) {
+                    return bad(format!("b's object {uri} is not in the repository"))
+                }
+            }
+        }
+    }
+    if let Some(obs) = oracle::observe(&w) {
+        let (issues, _) = oracle::c01_check(&w, &obs);
+        if let Some((s, d)) = issues.first() {
+            return bad(format!("the tree is not exact: {s}: {d}"))
+        }
+    }
+    if variant == "parent-entitlement" {
+        let info = w.ca_info("b").unwrap_or(Value::Null).to_string();
+        if !info.contains("10.0.2.0/24") {
+            return bad(format!("b never picked up its grown entitlement: {}",
+                               &info[..info.len().min(300)]))
+        }
+    }
+    if variant == "parent-request" {
+        let roles = oracle::key_roles(&w, "b");
+        if !roles.classes.values().any(|(_, st)| *st == "roll_new") {
+            return bad(format!("b's new key was never certified: {:?}", roles.classes))
+        }
+    }
+    drop(w);
+    let _ = std::fs::remove_dir_all(&dir);
+    None
+}
+
 /// The queue's notion of now (real clock + verif offset) in ms.
 fn w_now_ms() -> u128 {
     let real = std::time::SystemTime::now()
@@ -936,6 +1151,15 @@ fn main() {
         return
     }
     let mut rng = Rng::new(args.shard_seed());
+    // Part A first for a fixed number of cases (the world-building parts
+    // below take most of the budget on a loaded machine), more at the end
+    let mut case = 0u64;
+    for _ in 0..400 {
+        case += 1;
+        if let Some((sig, detail, wit)) = queue_case(&mut r, &args, case, &mut rng) {
+            r.violation(&sig, &detail, wit);
+        }
+    }
     // Part C: restart with k running tasks; k spread over the shards
     let ks = [0usize, 1, 2, 3, 5];
     let my_k = ks[(args.shard as usize) % ks.len()];
@@ -954,8 +1178,23 @@ fn main() {
     {
         r.violation(&sig, &detail, wit);
     }
+    // Part E: a follow-up committed while its same-named task is running
+    {
+        let variants = ["rrdp", "repo", "parent-entitlement", "parent-request",
+                        "rrdp-withdraw"];
+        let n = variants.len() * 2;
+        // two cases per shard in quick, all ten in thorough
+        let per = if args.thorough() { n } else { 2 };
+        for j in 0..per {
+            let i = (args.shard as usize * 2 + j) % n;
+            if let Some((sig, detail, wit)) =
+                overlap_case(&mut r, &args, variants[i / 2], i % 2 == 0)
+            {
+                r.violation(&sig, &detail, wit);
+            }
+        }
+    }
     // Part A and B alternate until the budget is used
-    let mut case = 0u64;
     let mut hist_idx = 0u64;
     while r.within_budget() {
         for _ in 0..40 {
